@@ -246,6 +246,8 @@ pub fn run(tier: Tier, seed: u64) -> i32 {
     report.sample("case", json!({"module": "wrath", "username": "A", "client_seed": "0xDEADBEEF", "server_seed": "0x01020304", "variation": "swapped-seeds", "expected": "Err carrying presented proof and SHA1(U|0|client|server|K)"}));
     report.space("3 modules x 6 usernames x session keys x 121 seed pairs; server's own seed scripted through the RNG seam and read back through seed()");
     report.assume("usernames and session keys come from alphabets");
+    report.set("exhaustive", json!(false));
+    report.cap_hit("usernames and session keys come from alphabets; the seed-pair and deviation dimensions are closed completely");
     report.finish()
 }
 
